@@ -112,6 +112,24 @@ func (e *Exec) setupTracks() {
 			if ti.sig == nil {
 				e.unsupported("track %s: func-typed field %s not found", tr.Name, tr.Target)
 			}
+		case "fnelem":
+			// a call through an element of a slice-of-functions field: target "pkg.Struct.field"
+			i := strings.LastIndex(tr.Target, ".")
+			stT := sc.resolveType(tr.Target[:i])
+			st, ok := stT.Underlying().(*types.Struct)
+			if !ok {
+				e.unsupported("track %s: %s is not a struct", tr.Name, tr.Target[:i])
+			}
+			for k := 0; k < st.NumFields(); k++ {
+				if st.Field(k).Name() == tr.Target[i+1:] {
+					if sl, ok := st.Field(k).Type().Underlying().(*types.Slice); ok {
+						ti.sig, _ = sl.Elem().Underlying().(*types.Signature)
+					}
+				}
+			}
+			if ti.sig == nil {
+				e.unsupported("track %s: slice-of-func field %s not found", tr.Name, tr.Target)
+			}
 		case "result":
 			// a call of the function value returned as the i-th result of F: target "F.i"
 			i := strings.LastIndex(tr.Target, ".")
@@ -184,6 +202,14 @@ func (e *Exec) matchTracks(common *ssa.CallCommon) []*trackInfo {
 			if !common.IsInvoke() {
 				if key := fieldOfCallee(common.Value); key == ti.target {
 					out = append(out, ti)
+				}
+			}
+		case "fnelem":
+			if u, ok := common.Value.(*ssa.UnOp); ok && u.Op == token.MUL {
+				if ia, ok := u.X.(*ssa.IndexAddr); ok {
+					if key := fieldOfCallee(ia.X); key == ti.target {
+						out = append(out, ti)
+					}
 				}
 			}
 		case "result":
@@ -633,6 +659,10 @@ func (e *Exec) isZapPrivateComp(n string) bool {
 	}
 	if strings.HasPrefix(n, "H:") || strings.HasPrefix(n, "E:") || strings.HasPrefix(n, "C:") {
 		rest := strings.TrimLeft(n[2:], "_")
+		if strings.HasPrefix(n, "E:") && (strings.Contains(rest, "zapcore.") || strings.Contains(rest, "zap.")) {
+			// slices whose element type mentions zap types are built and owned by zap
+			return true
+		}
 		for _, p := range []string{"io.", "time.", "sync_atomic.", "bufio.", "zap.", "zapcore.", "buffer.", "zapio.", "zapgrpc.", "zaptest.", "internal_", "exp_", "observer.", "zaptest_"} {
 			if strings.HasPrefix(rest, p) {
 				return true
